@@ -92,6 +92,9 @@ fn k_file_entry_index_cpio() {
     assert!(cpio_reader("d").file_entry_index(&entries) == Some(2));
     assert!(cpio_reader("./zz").file_entry_index(&entries) == None);
     assert!(cpio_reader("TRAILER!!!").file_entry_index(&entries) == None);
+    // equality of the whole path, not of a suffix or a prefix of it (seed C07-c)
+    assert!(cpio_reader("./c").file_entry_index(&entries) == None);
+    assert!(cpio_reader("./b").file_entry_index(&entries) == None);
     std::mem::forget(entries);
 }
 
